@@ -14,7 +14,7 @@ func init() {
 			"probes that contain a VALID tag/mark (e.g. obfs4 mark valid, MAC broken) are outside the property's domain and are not generated",
 		},
 		Stages: []Stage{
-			{Name: "probes", Dir: "cmd/application", Pkg: ".", Run: "^TestVerifC03Probes$", Drivers: []string{"app"}, Exports: []string{"lib"}, HangIsViol: true, TimeoutQ: 10 * time.Minute, TimeoutT: 60 * time.Minute},
+			{Name: "probes", Dir: "cmd/application", Pkg: ".", Run: "^TestVerifC03(Probes|MacFlip)$", Drivers: []string{"app"}, Exports: []string{"lib"}, HangIsViol: true, TimeoutQ: 10 * time.Minute, TimeoutT: 60 * time.Minute},
 			{Name: "realtcp", Dir: "cmd/application", Pkg: ".", Run: "^TestVerifC03RealTCP$", Drivers: []string{"app"}, Exports: []string{"lib"}, Netns: true, HangIsViol: true, TimeoutQ: 10 * time.Minute, TimeoutT: 10 * time.Minute},
 		},
 	})
